@@ -80,6 +80,20 @@ def cancel_rule(prog, rep, up, rec, ctor, cancel, L, armed_kinds):
     rep.check(kinds <= cancelled, "CANCELS", "%s cancels %s" % (cancel, sorted(kinds)), f.loc,
               "registrations that can be pending: %s; cancelled by %s: %s" % (sorted(kinds), cancel, sorted(cancelled)),
               function=cancel, construct="cancel-kinds")
+    # ... and cancels *its own* registration: the (descriptor, direction) pairs handed to events_network_cancel are those the unit
+    # registers (cancelling the other direction removes somebody else's registration on the same socket and leaves one's own behind,
+    # pointing at a cookie that is about to be freed)
+    def pairs(calls, fi, oi):
+        out = set()
+        for e in calls:
+            fd, op = norm(e.arg(fi)), norm(e.arg(oi))
+            out.add((fd[2] if fd[0] == "." else show(fd), op[1] if op[0] == "c" else show(op)))
+        return out
+    regs = pairs([e for g in u.funcs if g.file == up for e in g.calls("events_network_register")], 2, 3)
+    cans = pairs(list(f.calls("events_network_cancel")), 0, 1)
+    if regs or cans:
+        rep.check(cans <= regs and (not regs or bool(cans)), "CANCELS", "%s cancels the (descriptor, direction) registrations its unit makes" % cancel, f.loc,
+                  "registered: %s; cancelled: %s" % (sorted(regs), sorted(cans)), function=cancel, construct="cancel-direction")
     # cookie freed, and freed after every cancel call (last)
     ok = bool(frees)
     for fr in frees:
@@ -591,6 +605,62 @@ def handle_clear_rule(prog, rep, only_files):
     return n
 
 
+def kept_params(f):
+    """Names of f's pointer parameters whose value is stored into an object f has just obtained from a call (malloc, a pool, a
+    constructor); None when f builds no such object."""
+    u = f.unit
+    fresh = set()
+    for e in f.all_elems():
+        if e.is_assign and e.op == "=" and norm(e.kid(0))[0] == "v":
+            r = e.kid(1).strip() if e.kid(1) is not None else None
+            while r is not None and r.cls == "BinaryOperator" and r.op == "=":
+                r = r.kid(1).strip()
+            if r is not None and r.cls == "CallExpr" and (u.types.get(e.kid(0).ty) or {}).get("kind") == "ptr":
+                fresh.add(norm(e.kid(0)))
+    if not fresh:
+        return None
+    params = {("v", p["name"], p["id"]): p["name"] for p in f.params if (u.types.get(p["ty"]) or {}).get("kind") == "ptr"}
+    kept = set()
+    built = False
+    for e in f.all_elems():
+        if e.is_assign and e.op == "=":
+            lhs = norm(e.kid(0))
+            r = root_var(lhs)
+            if lhs[0] != "." or r is None or r not in fresh:
+                continue
+            built = True
+            v = norm(e.kid(1))
+            if v in params and v not in fresh:
+                kept.add(params[v])
+    return kept if built else None
+
+
+def borrow_ref_rule(prog, rep, only_files):
+    """Which of the caller's pointers an object may keep after the call that built it is part of the interface (the header says
+    what must outlive the call; everything else may be a local of the caller's).  For every constructor-like function of the given
+    units, the pointer parameters it stores into the object it builds are among those it stores on the reference tree
+    (sa/borrows.json).  A newly kept pointer -- say a timeout the constructor used to copy -- is read later from memory the
+    caller may have reused."""
+    import json, os
+    ref = json.load(open(os.path.join(os.path.dirname(os.path.dirname(os.path.abspath(__file__))), "borrows.json")))
+    n = 0
+    for up in only_files:
+        if up not in prog.units:
+            continue
+        for f in prog.unit(up).funcs:
+            if f.file != up or f.name not in (ref.get(up) or {}):
+                continue
+            k = kept_params(f)
+            if k is None:
+                continue
+            n += 1
+            extra = sorted(k - set(ref[up][f.name]))
+            rep.check(not extra, "BORROW", "%s keeps only the caller's pointers its interface lets it keep (%s)" % (f.name, ", ".join(ref[up][f.name]) or "none"), f.loc,
+                      "%s is now stored in the object being built; on the reference tree it was copied or used within the call, so callers may pass "
+                      "memory that does not outlive the call" % ", ".join(extra), function=f.name, construct="borrow:" + ",".join(extra))
+    return n
+
+
 def n5(prog, rep, up, L):
     u = prog.unit(up)
     sysc = SYSCALL[up]
@@ -758,6 +828,8 @@ def run(tier):
         n4(prog, rep)
         if closed_fd_rule(prog, rep) < 1:
             rep.defer_broken("N4: no close() of a descriptor kept in a request found")
+        if borrow_ref_rule(prog, rep, list(UNITS)) < 4:
+            rep.defer_broken("BORROW: fewer than 4 request constructors found in the network units")
         if handle_clear_rule(prog, rep, ["network/network_connect.c"]) < 2:
             rep.defer_broken("SLOT: fewer than 2 (handle field, completion callback) pairs found in network_connect.c")
         if close_registered_rule(prog, rep) < 3:
